@@ -46,6 +46,7 @@ def run(ctx: RuleContext):
     from .c10 import check_all_returns_instrumented
 
     ctx.sub(check_all_returns_instrumented, ctx, "C18.6")
+    ctx.sub(check_nothing_imported_while_compiling, ctx)
 
 
 def check_tag(ctx):
@@ -331,3 +332,71 @@ def check_overrides(ctx):
                     ctx.ok("C18.4", meth.qualname, f"delegates to super().{name} with its own arguments")
     ctx.counters["loader_methods"] = len(ld.methods)
     ctx.floor("C18.4", "loader_methods", 3)
+
+
+# ------------------------------------------------------------------------ C18.7
+def check_nothing_imported_while_compiling(ctx):
+    """importlib calls the loader's `source_to_code` from inside `get_code`, i.e. *inside* the region in which
+    cache_from_source carries the instrumented tag.  Whatever source_to_code (and the transformer / Typechecker
+    methods it drives) runs must therefore not import or execute modules named by the user: such a module -- and
+    everything it imports -- would be compiled and cached, un-instrumented, under the instrumented tag, and be
+    reused from there once it is hooked itself."""
+    from ..core import region
+
+    m = ctx.model
+    ld = m.cls("_import_hook._JaxtypingLoader")
+    s2c = need(ld.methods.get("source_to_code"), "_JaxtypingLoader.source_to_code not found")
+    fns = {f.qualname: f for f in region(m, s2c, depth=3)}
+    # methods driven through objects the loader holds: the transformer's visit_* methods, the Typechecker's methods
+    work = list(fns.values())
+    tc = m.classes.get("_import_hook.Typechecker")
+    tr = m.classes.get("_import_hook.JaxtypingTransformer")
+    seen_attr_calls = set()
+    while work:
+        f = work.pop()
+        for c in m.calls_in(f):
+            if not isinstance(c.func, ast.Attribute):
+                continue
+            recv = norm(c.func.value)
+            tgt = None
+            if tc is not None and recv.endswith("_typechecker") and c.func.attr in tc.methods:
+                tgt = tc.methods[c.func.attr]
+            elif tr is not None and c.func.attr == "visit" and "JaxtypingTransformer" in recv or (tr is not None and c.func.attr in ("visit", "generic_visit") and f.cls is tr):
+                for nm_, mt in tr.methods.items():
+                    if nm_.startswith("visit_") and mt.qualname not in fns:
+                        fns[mt.qualname] = mt
+                        work.append(mt)
+                        for h_ in region(m, mt, depth=2):
+                            if h_.qualname not in fns:
+                                fns[h_.qualname] = h_
+                                work.append(h_)
+            if tgt is not None and tgt.qualname not in fns:
+                for h_ in region(m, tgt, depth=2):
+                    if h_.qualname not in fns:
+                        fns[h_.qualname] = h_
+                        work.append(h_)
+    n_calls = 0
+    for q, f in sorted(fns.items()):
+        ctx.saw(f)
+        for c in m.calls_in(f):
+            n_calls += 1
+            nm = norm(c.func)
+            last = nm.split(".")[-1]
+            dynamic_arg = bool(c.args) and not isinstance(c.args[0], ast.Constant)
+            if last in ("__import__", "import_module", "exec", "run_module", "run_path") and dynamic_arg or (last == "eval" and dynamic_arg and nm == "eval"):
+                ctx.bad("C18.7", f, c, f"`{short(c, 50)}` runs while importlib's cache_from_source carries the instrumented tag (source_to_code is called from inside get_code): "
+                        "a module imported here, and everything it imports, is cached un-instrumented under the instrumented tag")
+                continue
+            # a call through an attribute that holds code generated with exec (`self._resolve = ns["resolve"]` after `exec(src, {}, ns)`)
+            if isinstance(c.func, ast.Attribute) and isinstance(c.func.value, ast.Name) and f.cls is not None and f.params and c.func.value.id == f.params[0] \
+                    and c.func.attr not in {mn for k in m.mro(f.cls) if hasattr(k, "methods") for mn in k.methods}:
+                vals = m.instance_attr_values(f.cls, c.func.attr)
+                for owner, v in vals:
+                    if isinstance(v, ast.Subscript) and isinstance(v.value, ast.Name):
+                        ns = v.value.id
+                        execs = [x for x in walk_scope(owner.node) if isinstance(x, ast.Call) and norm(x.func) == "exec" and any(isinstance(a, ast.Name) and a.id == ns for a in x.args)]
+                        if execs:
+                            ctx.bad("C18.7", f, c, f"`{short(c, 40)}` calls code generated with `{short(execs[0], 40)}` in {owner.qualname} while importlib's cache_from_source carries the "
+                                    "instrumented tag: what that code imports (the typechecker's own package and its imports) is cached un-instrumented under the instrumented tag")
+    ctx.counters["calls_under_the_tag"] = n_calls
+    ctx.ok("C18.7", s2c.qualname, f"{len(fns)} functions run from source_to_code (inside the patched region of get_code), {n_calls} calls: none imports / executes a module named at run time")
